@@ -6,7 +6,7 @@
 From Coq Require Import ZArith List Bool Reals Lra.
 From Coquelicot Require Import Coquelicot.
 From GTCV Require Import Num RNum Vector VectorFacts Opres KTypes Kernel DerivTable ChainRule.
-From GTCV Require Import Cplx CplxR COpres CKernel CFacts CChain.
+From GTCV Require Import Cplx CplxR COpres CKernel CKernelFacts CWitness CFacts CChain.
 From GTCV.gen Require Import Gen_lib_complex.
 Import ListNotations.
 Local Open Scope R_scope.
@@ -196,6 +196,29 @@ Theorem C03_acosh_roots_refuted :
 Proof. exact acosh_roots_refuted. Qed.
 Print Assumptions C03_acosh_roots_refuted.
 
+(* (8) C10 for the complex dof: _EnsembleComponents' class-level accumulators are cleared before
+   use on every path of willink_hall, so a dof() read does not depend on what an earlier call
+   (possibly one that raised part-way) left in them -- for every number instance *)
+Theorem C03_dof_entry_independent :
+  forall (C : CNum) (k : KTypes.state (T (cN C))) (a a' : option (T (cN C) * T (cN C) * T (cN C)))
+         (jr ji : nat) (ore oim : KTypes.ureal (T (cN C))),
+    let '(k1, a1, r1) := willink_hall C k a jr ji ore oim in
+    let '(k2, a2, r2) := willink_hall C k a' jr ji ore oim in
+    k1 = k2 /\ r1 = r2 /\ (a1 = a2 \/ (a1 = a /\ a2 = a')).
+Proof. exact willink_hall_entry_independent. Qed.
+Print Assumptions C03_dof_entry_independent.
+
+(* (9) refuted (C01, known finding C01-intermediate-times-complex): on the faithful binary64 model,
+   x = result(ureal(2, 0.5) * 1.5);  x + 1j  and  x * 1j  end in AssertionError (the promotion code
+   reuses the intermediate operand itself as one component and UncertainComplex.__init__ asserts
+   equal is_intermediate), while  x * (2+3j)  is an uncertain complex number *)
+Theorem C01_intermediate_times_complex_refuted :
+  (match nth 2 c01_outs OutUnit with OutObj _ _ _ _ (KInterm _) => true | _ => false end) = true /\
+  is_exn (nth 3 c01_outs OutUnit) AssertionError = true /\
+  is_exn (nth 4 c01_outs OutUnit) AssertionError = true /\
+  (match nth 5 c01_outs OutUnit with OutList [OutObj _ _ _ _ _; OutObj _ _ _ _ _] => true | _ => false end) = true.
+Proof. exact c01_refuted. Qed.
+
 (* ---------- non-vacuity ---------- *)
 (* a concrete state: one elementary complex z = 1 + 2j with u = (1/2, 1/4) (independent), and
    the tree  exp(z) * z  (z used twice): all hypotheses of C03_chain_rule_partial hold and the model
@@ -209,7 +232,7 @@ Definition ex_cstate : cstate R :=
           [] [[]; []]
           [SReal (mkU 1 [(kr1, / 2)] [] [] (LeafRef kr1)) None;
            SReal (mkU 2 [(ki1, / 4)] [] [] (LeafRef ki1)) None])
-       [(0%nat, CObj (mkCM 1%nat None true None None None))].
+       [(0%nat, CObj (mkCM 1%nat None true None None None))] None.
 Definition ex_U (k : key) : R := if keqb k kr1 then / 2 else / 4.
 Definition ex_I (k : key) : bool := true.
 Definition ex_e0 (k : key) : R := if keqb k kr1 then 1 else 2.
